@@ -18,8 +18,9 @@ CONFIG = {
               "C06_sorted_is_canonical, C06_sort_abs_canon (returned configurations are the truth-table rows), "
               "C06_sort_abs_perm_eq (cursor key independent of literal order). "
               "HYPOTHESIS of the page/history theorems: exec_spec C n A = execute_query on the preprocessed scratch returns "
-              "MCA C n A, leaves temps = countsA (sort_abs A) on every non-true node and keeps the scratch Clean (correctness of "
-              "execute_query, proved separately); discharged here for A = [] (C06_exec_spec_nil), so "
+              "r = MCA C n A, if r > 0 leaves temps = countsA (sort_abs A) on every non-true node (the core shortcut that answers 0 "
+              "does not recompute temps) and keeps the scratch Clean (correctness of execute_query, proved separately; checked by "
+              "vm_compute on all partial assignments of three example circuits, marker and default strategy); discharged here for A = [] (C06_exec_spec_nil), so "
               "C06_enumerate_page_nil and C06_pages_cycle_nil are unconditional. Side conditions: 0 < n "
               "(C06_true_root_refuted: the one-node circuit TrueN with 0 features returns an empty page and has rt = 0) and "
               "or_no_true_child. Correspondence: pages are compared EXACTLY (order included) with the extracted model of "
